@@ -698,6 +698,8 @@ type Exec struct {
 	// Observe sees every call (callee name, abstract arguments, memory before the call), whether
 	// it is then entered, summarised or left opaque.
 	Observe func(ev *AEvent)
+	// OnStore sees every store of the analysed code (the cell path written).
+	OnStore func(path string)
 	// ReadOnly names opaque callees that do not write through their arguments.
 	ReadOnly  func(name string) bool
 	MaxStates int
@@ -1009,6 +1011,9 @@ func (ex *Exec) run(s *astate) ([]*astate, *AOutcome, error) {
 				if p.Sym {
 					s.mem.Havoc(p.Path[:strings.LastIndexByte(p.Path, '[')+1])
 				} else {
+					if ex.OnStore != nil {
+						ex.OnStore(p.Path)
+					}
 					s.mem.Store(p.Path, v, x.Val.Type())
 				}
 			} else {
